@@ -3,7 +3,7 @@ CONSTANTS
   Configs <- ConfMemLimit
   OpKinds <- FewKinds
   TLt <- NLt  TSucc <- NSucc  TAddTtl <- NAddTtl  TRemSecs <- NRemSecs
-  TZero = 0  TMaxV = 4
+  TZero = 0  TtlNone = 0  TMaxV = 4
   Overhead = 10  MaxValueLen = 100  MaxKeyLen = 50  RecovMaxV1 = 40  RecovMax = 30
 SPECIFICATION Spec
 CONSTRAINT Bounded
